@@ -141,6 +141,75 @@ def gen_prob(repo, report):
                     % (cname, text, var, cname, cname))
         out += T.emit("%s_core" % cname, "verif/metric.py:%s.compute_single" % cname, one)
 
+    # QuantileCoverage: which comparison is made under which inclusion flag, per branch
+    def coverage():
+        fn = find_func(find_class(mtree, "QuantileCoverage"), "compute_single")
+        body = [st for st in fn.body if not is_docstring(st)]
+        top = [st for st in body if isinstance(st, ast.If)]
+        if len(top) != 1:
+            raise Unsupported("QuantileCoverage: expected one top-level if chain")
+        OPS = {ast.LtE: "n_leb Ops x y", ast.Lt: "n_ltb Ops x y", ast.GtE: "n_leb Ops y x", ast.Gt: "n_ltb Ops y x"}
+
+        def cmp_of(e):
+            if not (isinstance(e, ast.Compare) and len(e.ops) == 1 and type(e.ops[0]) in OPS):
+                raise Unsupported("QuantileCoverage: comparison %s" % ast.unparse(e))
+            def nm(x):
+                src = ast.unparse(x)
+                if not src.endswith("[I]") or src[:-3] not in ("obs", "q0", "q1"):
+                    raise Unsupported("QuantileCoverage: operand %s" % src)
+                return src[:-3]
+            return "(vmap2b Ops (fun x y => %s) %s %s)" % (OPS[type(e.ops[0])], nm(e.left), nm(e.comparators[0]))
+
+        def flagged(st):
+            """`if interval.<flag>: X = cmp / return np.mean(cmp) else: ...` -> (target, gallina bool-vector expr)"""
+            t = ast.unparse(st.test)
+            if t not in ("interval.lower_eq", "interval.upper_eq") or len(st.body) != 1 or len(st.orelse) != 1:
+                raise Unsupported("QuantileCoverage: inclusion test %s" % t)
+            def one(b):
+                if isinstance(b, ast.Return):
+                    src = ast.unparse(b.value)
+                    if not (src.startswith("np.mean(") and isinstance(b.value, ast.Call) and len(b.value.args) == 1):
+                        raise Unsupported("QuantileCoverage: return %s" % src)
+                    return "ret", cmp_of(b.value.args[0])
+                if isinstance(b, ast.Assign) and isinstance(b.targets[0], ast.Name):
+                    return b.targets[0].id, cmp_of(b.value)
+                raise Unsupported("QuantileCoverage: statement %s" % ast.unparse(b))
+            (ta, ea), (tb, eb) = one(st.body[0]), one(st.orelse[0])
+            if ta != tb:
+                raise Unsupported("QuantileCoverage: branches assign different names")
+            return ta, "(if iv_%s interval_ then %s else %s)" % (t.split(".")[1], ea, eb)
+
+        def branch(stmts):
+            env = {}
+            for st in stmts:
+                if isinstance(st, ast.Assign) and ast.unparse(st.value).startswith("data.get_scores("):
+                    continue
+                if isinstance(st, ast.Assign) and ast.unparse(st.targets[0]) == "I":
+                    continue            # the validity filter: the arrays handed to the core are already filtered
+                if isinstance(st, ast.If):
+                    tgt, e = flagged(st)
+                    if tgt == "ret":
+                        return "(bmean %s)" % e
+                    env[tgt] = e
+                    continue
+                if isinstance(st, ast.Return):
+                    src = ast.unparse(st.value)
+                    if src == "np.mean(c0 & c1)" and "c0" in env and "c1" in env:
+                        return "(bmean (map (fun p => andb (fst p) (snd p)) (combine %s %s)))" % (env["c0"], env["c1"])
+                    raise Unsupported("QuantileCoverage: return %s" % src)
+                raise Unsupported("QuantileCoverage: statement %s" % ast.unparse(st))
+            raise Unsupported("QuantileCoverage: branch without return")
+        n0 = top[0]
+        if ast.unparse(n0.test) != "np.isinf(interval.lower)" or len(n0.orelse) != 1 or not isinstance(n0.orelse[0], ast.If) or \
+                ast.unparse(n0.orelse[0].test) != "np.isinf(interval.upper)":
+            raise Unsupported("QuantileCoverage: branch tests")
+        b1, b2, b3 = branch(n0.body), branch(n0.orelse[0].body), branch(n0.orelse[0].orelse)
+        return ("(* np.mean of a boolean vector *)\n"
+                "Definition bmean (l : list bool) : T := n_div Ops (bsum Ops l) (n_ofnat Ops (length l)).\n"
+                "(* obs, q0, q1: the cases where all requested arrays are valid (the np.where filter) *)\n"
+                "Definition QuantileCoverage_core (interval_ : interval Ops) (obs q0 q1 : list T) : T :=\n"
+                "  if n_isinf Ops (iv_lower interval_) then %s\n  else if n_isinf Ops (iv_upper interval_) then %s\n  else %s.\n" % (b1, b2, b3))
+    out += T.emit("QuantileCoverage_core", "verif/metric.py:QuantileCoverage.compute_single", coverage)
     out += "End G.\n"
     return out
 
